@@ -78,8 +78,8 @@ CLAIMED = {
     "C18": ("Coq proof (optimum is monotone under any mapspace enlargement that preserves costs; larger memories / larger may_keep / smaller keep are such enlargements and preserve feasibility) + pairs of mapper runs",
             "C18_monotone, C18_relaxations; (constrained spec, relaxed spec) pairs x {ENERGY, LATENCY, EDP} on the real mapper: the relaxed optimum never exceeds the tight one, both also equal to the exhaustive reference when the relaxation is in the model; imperfect temporal factorisation and the fused-loop limit are mapper-only relaxations. PARTIAL: loop-bound and min_usage relaxations need spatial fanouts (outside the class).",
             "Coq kernel; MiniForge class"),
-    "C19": ("Coq proof (energy clause: scaling every per-action energy and leak power by k scales the energy of every mapping by k under model and execution, leaves latency and the mapspace unchanged, hence scales the optimum) + scaled mapper runs",
-            "C19_energy_of_every_mapping, C19_space_unchanged, C19_energy_scale_partial; the real mapper is run on (spec, scaled spec) pairs for k in {2^-20 ... 2^40, 1e20} (energies, throughputs) and with workload / Einsum n_instances; oracle: optimal energy x k, optimal latency / k, totals x n_instances, feasibility unchanged. PARTIAL: the throughput and n_instances clauses are mapper-only (not proved).",
+    "C19": ("Coq proof (energy clause: scaling every per-action energy and leak power by k scales the energy of every mapping by k under model and execution, leaves latency and the mapspace unchanged, hence scales the optimum; throughput clause: scaling every throughput by k > 0 divides the latency of every mapping, hence the optimal latency, by k) + scaled mapper runs",
+            "C19_energy_of_every_mapping, C19_space_unchanged, C19_energy_scale_partial, C19_latency_of_every_mapping, C19_throughput_scale; the real mapper is run on (spec, scaled spec) pairs for k in {2^-20 ... 2^40, 1e20} (energies, throughputs) and with workload / Einsum n_instances; oracle: optimal energy x k, optimal latency / k, totals x n_instances, feasibility unchanged. PARTIAL: the n_instances clause is mapper-only (outside the single-Einsum model).",
             "Coq kernel; MiniForge class; fix F11 (int64 overflow) found by this check"),
     "C16": ("Coq proof (what a (1+t)-covering pruning that keeps only real candidates guarantees: optimum <= best kept <= (1+t) optimum; no compounding under a transitive cover relation) + end-to-end tolerance runs of the real mapper against the exact enumerated optimum",
             "C16_never_below, C16_objective_bound, C16_no_compounding; map_workload_to_arch with objective_tolerance in {0.01, 0.1, 0.5} and resource_usage_tolerance in {0, 0.01, 0.1, 0.5} on random specs (most capacity-bound): exact optimum <= best returned <= (1+t) x exact optimum, every returned mapping valid (verified checker's twin + real model). PARTIAL: that each pruning site satisfies the covering premise is checked end to end, not proved.",
